@@ -897,15 +897,23 @@ impl Scaler for FreeTypeScaler<'_> {
                 }
                 Anchor::Point { base, component } => {
                     let (base_offset, component_offset) = (base as usize, component as usize);
+                    // The base point must be one of the points loaded by the
+                    // previous components of this glyph and the component
+                    // point one of the points just loaded; anything else
+                    // has not been written yet. FreeType rejects such a
+                    // glyph as well (`Invalid_Composite` in
+                    // `TT_Process_Composite_Component`).
                     let base_point = self
                         .memory
                         .scaled
-                        .get(point_base + base_offset)
+                        .get(point_base..start_point)
+                        .and_then(|points| points.get(base_offset))
                         .ok_or(DrawError::InvalidAnchorPoint(glyph_id, base))?;
                     let component_point = self
                         .memory
                         .scaled
-                        .get(start_point + component_offset)
+                        .get(start_point..end_point)
+                        .and_then(|points| points.get(component_offset))
                         .ok_or(DrawError::InvalidAnchorPoint(glyph_id, component))?;
                     *base_point - *component_point
                 }
@@ -1269,15 +1277,19 @@ impl Scaler for HarfBuzzScaler<'_> {
                 }
                 Anchor::Point { base, component } => {
                     let (base_offset, component_offset) = (base as usize, component as usize);
+                    // As in the FreeType style scaler: only points that have
+                    // been loaded already may be referenced.
                     let base_point = self
                         .memory
                         .points
-                        .get(point_base + base_offset)
+                        .get(point_base..start_point)
+                        .and_then(|points| points.get(base_offset))
                         .ok_or(DrawError::InvalidAnchorPoint(glyph_id, base))?;
                     let component_point = self
                         .memory
                         .points
-                        .get(start_point + component_offset)
+                        .get(start_point..end_point)
+                        .and_then(|points| points.get(component_offset))
                         .ok_or(DrawError::InvalidAnchorPoint(glyph_id, component))?;
                     *base_point - *component_point
                 }
@@ -1549,6 +1561,104 @@ mod tests {
         let scaler = HarfBuzzScaler::unhinted(&outlines, &outline, &mut mem_buf, None, &[]).unwrap();
         let glyph = outlines.loca.get_glyf(gid, &outlines.glyf).unwrap();
         assert!(scaler.scale(&glyph, gid).is_err());
+    }
+
+    /// A component positioned by matching points may only refer to a point
+    /// of the previously loaded components (base) and a point of the
+    /// component itself; other indices are still inside the point buffer
+    /// but have not been written, so the outline would depend on whatever
+    /// the scratch memory contained.
+    #[test]
+    fn composite_anchor_points_must_be_loaded() {
+        let font = FontRef::new(font_test_data::GLYF_COMPONENTS).unwrap();
+        let mut outlines = Outlines::new(&font).unwrap();
+        let mut glyf_buf = font_test_data::bebuffer::BeBuffer::new();
+        // glyph 0: one contour with 3 points
+        glyf_buf = glyf_buf.push(1u16);
+        glyf_buf = glyf_buf.extend([0i16; 4]); // bbox
+        glyf_buf = glyf_buf.push(2u16); // contour end
+        glyf_buf = glyf_buf.push(0u16); // instruction count
+        for _ in 0..3 {
+            glyf_buf = glyf_buf.push(
+                SimpleGlyphFlags::ON_CURVE_POINT
+                    | SimpleGlyphFlags::X_SHORT_VECTOR
+                    | SimpleGlyphFlags::Y_SHORT_VECTOR,
+            );
+        }
+        glyf_buf = glyf_buf.extend([10u8, 20, 30, 5, 15, 25]); // x/y coords
+        glyf_buf = glyf_buf.push(0u8); // pad
+        let glyph0_end = glyf_buf.len();
+        let mut ends = vec![0u32, glyph0_end as u32];
+        // glyphs 1..=3: three components each; one of them is anchored with
+        // (base point, component point)
+        let anchors = [
+            // the first component has no previously loaded points
+            (0usize, 8u8, 0u8),
+            // base point ok, component point beyond the component's own
+            // points (and its phantom points)
+            (1, 0, 8),
+            // both loaded
+            (2, 4, 1),
+        ];
+        for (anchored, base, component) in anchors {
+            glyf_buf = glyf_buf.push(-1i16);
+            glyf_buf = glyf_buf.extend([0i16; 4]);
+            for i in 0..3 {
+                let mut flags = CompositeGlyphFlags::empty();
+                if i != 2 {
+                    flags |= CompositeGlyphFlags::MORE_COMPONENTS;
+                }
+                if i != anchored {
+                    flags |= CompositeGlyphFlags::ARGS_ARE_XY_VALUES;
+                }
+                glyf_buf = glyf_buf.push(flags);
+                glyf_buf = glyf_buf.push(0u16);
+                if i == anchored {
+                    glyf_buf = glyf_buf.extend([base, component]);
+                } else {
+                    glyf_buf = glyf_buf.extend([7u8, 9]);
+                }
+            }
+            ends.push(glyf_buf.len() as u32);
+        }
+        outlines.glyf = Glyf::read(glyf_buf.data().into()).unwrap();
+        let mut loca_buf = font_test_data::bebuffer::BeBuffer::new();
+        loca_buf = loca_buf.extend(ends);
+        outlines.loca = Loca::read(loca_buf.data().into(), true).unwrap();
+        for (gid, expect_ok) in [(1u32, false), (2, false), (3, true)] {
+            let gid = GlyphId::new(gid);
+            let outline = outlines.outline(gid).unwrap();
+            assert_eq!(outline.points, 9 + PHANTOM_POINT_COUNT);
+            let glyph = outlines.loca.get_glyf(gid, &outlines.glyf).unwrap();
+            // Dirty scratch memory, as left behind by a previous draw
+            let mut results = vec![];
+            for fill in [0u8, 0xA5] {
+                let mut mem_buf = vec![fill; outline.required_buffer_size(Default::default())];
+                let scaler =
+                    FreeTypeScaler::unhinted(&outlines, &outline, &mut mem_buf, None, &[]).unwrap();
+                results.push(
+                    scaler
+                        .scale(&glyph, gid)
+                        .map(|scaled| scaled.points.to_vec())
+                        .map_err(|e| matches!(e, DrawError::InvalidAnchorPoint(..))),
+                );
+                let mut mem_buf = vec![fill; outline.required_buffer_size(Default::default())];
+                let scaler =
+                    HarfBuzzScaler::unhinted(&outlines, &outline, &mut mem_buf, None, &[]).unwrap();
+                let hb_result = scaler.scale(&glyph, gid);
+                assert_eq!(hb_result.is_ok(), expect_ok);
+            }
+            assert_eq!(results[0], results[1]);
+            match &results[0] {
+                Ok(points) => {
+                    assert!(expect_ok);
+                    // point 1 of the third component sits on point 4 (the
+                    // shifted point 1 of the second component)
+                    assert_eq!(points[7], points[4]);
+                }
+                Err(is_anchor_error) => assert!(!expect_ok && *is_anchor_error),
+            }
+        }
     }
 
     // fuzzer overflow for composite glyph with too many total points
